@@ -1029,6 +1029,21 @@ func (ctx Ctx) isNilCompareExpr(e *ast.BinaryExpr) bool {
 	return ctx.info.Types[e.Y].IsNil()
 }
 
+// checkNoCalls rejects an expression that calls a function (len, cap and
+// conversions are fine)
+func (ctx Ctx) checkNoCalls(e ast.Expr, msg string) {
+	ast.Inspect(e, func(n ast.Node) bool {
+		if call, ok := n.(*ast.CallExpr); ok {
+			f, isIdent := call.Fun.(*ast.Ident)
+			isBuiltin := isIdent && ctx.goBuiltin(f) && (f.Name == "len" || f.Name == "cap")
+			if !ctx.info.Types[call.Fun].IsType() && !isBuiltin {
+				ctx.unsupported(call, "%s", msg)
+			}
+		}
+		return true
+	})
+}
+
 // checkLoggedArgs rejects arguments of a logging call that call a function:
 // the call is emitted as a comment, which would drop the callee's effects
 func (ctx Ctx) checkLoggedArgs(args []ast.Expr) {
@@ -1969,6 +1984,8 @@ func (ctx Ctx) assignStmt(s *ast.AssignStmt) coq.Binding {
 		token.XOR_ASSIGN: coq.OpXor,
 	}
 	if op, ok := assignOps[s.Tok]; ok {
+		// the l-value is translated twice (as the operand and as the target)
+		ctx.checkNoCalls(lhs, "function call in the target of an op-assignment (it would run twice)")
 		rhs = coq.BinaryExpr{
 			X:  ctx.expr(lhs),
 			Op: op,
